@@ -11,18 +11,24 @@ import (
 	"net/http"
 	"net/http/httptest"
 	"net/url"
+	"os"
+	"path/filepath"
 	"regexp"
 	"sort"
+	"strconv"
 	"strings"
 	"sync"
 	"sync/atomic"
 	"testing"
 	"time"
 
+	"github.com/fabiolb/fabio/auth"
 	"github.com/fabiolb/fabio/config"
 	"github.com/fabiolb/fabio/noroute"
 	"github.com/fabiolb/fabio/proxy"
+	"github.com/fabiolb/fabio/registry/consul"
 	"github.com/fabiolb/fabio/route"
+	"github.com/hashicorp/consul/api"
 	"pgregory.net/rapid"
 
 	"verifharness/hx"
@@ -57,6 +63,7 @@ type chain struct {
 	up      *httptest.Server
 	px      *httptest.Server
 	pxz     *httptest.Server // compression configured
+	pxa     *httptest.Server // a basic auth scheme "b1" configured (user u, password password)
 	table   atomic.Value     // route.Table
 	matcher atomic.Value     // string: the configured proxy.matcher
 	noroute int
@@ -105,6 +112,23 @@ func newChain() *chain {
 		Config:    config.Proxy{GZIPContentTypes: regexp.MustCompile(`^(text/.*|application/json)(;.*)?$`)},
 		Transport: &http.Transport{DisableCompression: true, MaxIdleConnsPerHost: 4},
 		Lookup:    lookup,
+	})
+	// the same proxy with an auth scheme for routes that ask for one
+	dir, err := os.MkdirTemp("", "verif-c07-")
+	if err != nil {
+		panic(err)
+	}
+	htpasswd := filepath.Join(dir, "htpasswd")
+	os.WriteFile(htpasswd, []byte("u:{SHA}W6ph5Mm5Pz8GgiULbPgzG37mj9g=\n"), 0o600)
+	schemes, err := auth.LoadAuthSchemes(map[string]config.AuthScheme{"b1": {Name: "b1", Type: "basic", Basic: config.BasicAuth{Realm: "r", File: htpasswd}}})
+	if err != nil {
+		panic(err)
+	}
+	c.pxa = httptest.NewServer(&proxy.HTTPProxy{
+		Stats:       wire.Stats(),
+		Transport:   &http.Transport{DisableCompression: true, MaxIdleConnsPerHost: 4},
+		Lookup:      lookup,
+		AuthSchemes: schemes,
 	})
 	return c
 }
@@ -397,6 +421,26 @@ func TestC07PassThrough(t *testing.T) {
 	hx.Check(t, hx.Scale(6000, 50000), func(t *rapid.T) {
 		rt := genRoute(t)
 		cfg := rt.line(c.upHost())
+		if rt.query == "" && rapid.IntRange(0, 3).Draw(t, "route-from-service-tags") == 0 {
+			// the route comes from a Consul registration: the instance advertises another prefix with
+			// options of its own first, then this one; fabio derives the commands
+			host, portStr, _ := net.SplitHostPort(c.upHost())
+			port, _ := strconv.Atoi(portStr)
+			own := "urlprefix-" + rt.path
+			if rt.strip != "" {
+				own += " strip=" + rt.strip
+			}
+			if rt.prepend != "" {
+				own += " prepend=" + rt.prepend
+			}
+			if rt.hostOpt != "" {
+				own += " host=" + rt.hostOpt
+			}
+			sibling := "urlprefix-sibling.example/sib " + rapid.SampledFrom([]string{"prepend=/leaked", "host=leaked.example", "strip=/sib prepend=/leaked host=leaked.example", "strip=/api"}).Draw(t, "siblingopts")
+			svc := &api.CatalogService{Node: "n", Address: host, ServiceID: "svc-1", ServiceName: "svc", ServiceAddress: host, ServicePort: port, ServiceTags: []string{sibling, own}}
+			cfg = strings.Join(consul.VerifRouteCmds(svc, "urlprefix-", nil), "\n")
+			hx.Class("route-derived-from-service-tags")
+		}
 		tbl, err := route.NewTable(bytes.NewBufferString(cfg))
 		if err != nil {
 			t.Fatalf("%v\n%s", err, cfg)
@@ -414,6 +458,23 @@ func TestC07PassThrough(t *testing.T) {
 			if rapid.IntRange(0, 3).Draw(t, "client-accepts-gzip") > 0 && !hasHeader(q.headers, "Accept-Encoding") {
 				q.headers = append(q.headers, [2]string{"Accept-Encoding", rapid.SampledFrom([]string{"gzip", "gzip, deflate, br"}).Draw(t, "ae")})
 			}
+		}
+		if !gz && !strings.Contains(cfg, "\n") && rapid.IntRange(0, 4).Draw(t, "route-with-auth") == 0 && !hasHeader(q.headers, "Authorization") {
+			// the route asks for authentication and the client authenticates: an authorized exchange is an
+			// exchange like any other
+			if strings.Contains(cfg, ` opts "`) {
+				cfg = strings.Replace(cfg, ` opts "`, ` opts "auth=b1 `, 1)
+			} else {
+				cfg += ` opts "auth=b1"`
+			}
+			tbl, err := route.NewTable(bytes.NewBufferString(cfg))
+			if err != nil {
+				t.Fatalf("%v\n%s", err, cfg)
+			}
+			c.table.Store(tbl)
+			q.headers = append(q.headers, [2]string{"Authorization", "Basic dTpwYXNzd29yZA=="})
+			front = c.pxa
+			hx.Class("authorized-request-on-a-route-with-auth")
 		}
 		status, hdr, body, err := exchange(front.Listener.Addr().String(), q.wire(), q.method)
 		hx.Eval()
